@@ -292,7 +292,106 @@ pub fn meta() -> CheckMeta {
         level: "exploration",
         rule: "history = 1-3 sessions in ONE fresh sub-process (the default scheme is process-global), each a real client Session (initial scheme = the built-in default) against a raw scripted server on a write-recording MemPipe; steps: data packets of sizes placed around the schemes' sizes, pushes of one of 4 generated schemes (1-4 per session, incl. re-pushing the initial one), unparsable pushes (no stop, invalid UTF-8, non-numeric / negative stop); variant 'PaddingFactory::default() already used' / 'not used'. Oracle: every packet k after a processed push is accepted by the reference acceptor for line k of the pushed scheme (unpadded at/after its stop); unparsable pushes change nothing and do not end the session. Client level: real Client against a scripted TLS peer that pushes scheme B on the first session; later sessions must announce md5(B). distinct_nontrivial = distinct histories.".into(),
         assumptions: vec!["pushes are processed at quiescent points (1 virtual second after the frame was written)".into()],
-        floors: vec![("packets_checked_after_a_push", 500), ("pushes", 300), ("histories_default_used_before", 20), ("histories_default_not_used_before", 20)],
+        floors: vec![("packets_checked_after_a_push", 500), ("pushes", 300), ("histories_default_used_before", 20), ("histories_default_not_used_before", 20), ("client_level_sessions", 6), ("client_level_md5_announcements_checked", 4)],
         exhaustive: false,
     }
+}
+
+// ---------------------------------------------------------------------------
+// client level: the real Client against a scripted TLS peer that pushes schemes
+
+pub fn run_client_level(ctx: Ctx) -> Report {
+    use crate::netkit;
+    let quick = ctx.tier == crate::report::Tier::Quick;
+    let seed = ctx.seed;
+    run::case_begin("C19 client level");
+    let mut rep = run::rt_block_on(4, async move {
+        let mut rep = Report::new("C19");
+        let n_hist = if quick { 4 } else { 40 };
+        for hi in 0..n_hist {
+            let sch = schemes(seed.wrapping_add(hi as u64 * 7919));
+            // pushes[k] = scheme the peer pushes on session k (None = no push)
+            let mut rng = Rng::new(seed ^ (hi as u64 + 1) * 0x9E37);
+            let n_sessions = rng.usize(2, 4);
+            let pushes: Vec<Option<usize>> = (0..n_sessions).map(|k| if k == 0 || rng.chance(0.4) { Some(rng.usize(1, 3)) } else { None }).collect();
+            let Some(mut peer) = netkit::start_tls_peer().await else {
+                rep.inconclusive("cannot start TLS peer");
+                continue;
+            };
+            let client = netkit::make_client(&peer.addr, netkit::PASSWORD, engine::padding_from(&sch[0].text()).expect("scheme"), netkit::quiet_pool());
+            let mut current = 0usize; // scheme a well-behaved client uses for the NEXT session
+            let mut held = Vec::new();
+            let case = json!({"kind": "c19-client", "history": hi, "pushes": pushes});
+            rep.case(Some(hash_str(&case.to_string())));
+            'sessions: for (k, push) in pushes.iter().enumerate() {
+                // every request needs a new session because the earlier streams are still held
+                let c2 = client.clone();
+                let req = tokio::spawn(async move { c2.create_proxy_stream(("192.0.2.9".to_string(), 80)).await });
+                let Some(mut conn) = tokio::time::timeout(Duration::from_secs(10), peer.conns.recv()).await.ok().flatten() else {
+                    rep.inconclusive("client did not connect");
+                    break 'sessions;
+                };
+                // (1) the preamble's padding0 comes from line 0 of the scheme in force
+                let l = ((conn.preamble[32] as u64) << 8) | conn.preamble[33] as u64;
+                let (lo, hi_) = match sch[current].items(0).unwrap_or_default().first() {
+                    Some(refscheme::Item::Range(a, b)) => (*a, *b),
+                    _ => (0, 0),
+                };
+                rep.add("client_level_sessions", 1);
+                if l < lo || l > hi_ {
+                    rep.violate("scheme_push", "client_level", "later_session_preamble_not_from_pushed_scheme", format!("session #{k}: preamble announces {l} padding bytes, line 0 of scheme #{current} (in force after the pushes so far) allows {lo}..{hi_}"), case.clone());
+                }
+                // (2) the Settings frame announces the md5 of the scheme in force
+                let mut settings = None;
+                let mut sid = None;
+                while let Some(f) = conn.recv_non_padding(Duration::from_secs(10)).await {
+                    if f.cmd == refcodec::SETTINGS {
+                        settings = Some(refcodec::parse_settings(&f.data));
+                    }
+                    if f.cmd == refcodec::SYN {
+                        sid = Some(f.sid);
+                    }
+                    if f.cmd == refcodec::PSH {
+                        break;
+                    }
+                }
+                let want_md5 = format!("{:x}", md5::compute(sch[current].text().as_bytes()));
+                let got_md5 = settings.as_ref().and_then(|m| m.get("padding-md5").cloned()).unwrap_or_default();
+                if got_md5 != want_md5 {
+                    let which: Vec<usize> = (0..sch.len()).filter(|i| format!("{:x}", md5::compute(sch[*i].text().as_bytes())) == got_md5).collect();
+                    rep.violate("scheme_push", "client_level", "later_session_announces_old_scheme", format!("session #{k}: announces padding-md5 {got_md5} (scheme {:?}); scheme #{current} was pushed before and must be announced so that it is not pushed again", which), case.clone());
+                } else {
+                    rep.add("client_level_md5_announcements_checked", 1);
+                }
+                // the server side: push when told to, then accept the open
+                let _ = conn.send(refcodec::SERVER_SETTINGS, 0, b"v=2").await;
+                if let Some(p) = push {
+                    let _ = conn.send(refcodec::UPDATE_PADDING, 0, sch[*p].text().as_bytes()).await;
+                    current = *p;
+                    rep.add("client_level_pushes", 1);
+                }
+                let _ = conn.send(refcodec::SYNACK, sid.unwrap_or(1), &[]).await;
+                match tokio::time::timeout(Duration::from_secs(10), req).await {
+                    Ok(Ok(Ok(pair))) => held.push((pair, conn)),
+                    other => {
+                        rep.inconclusive(format!("request #{k} did not complete: {:?}", other.map(|r| r.map(|x| x.map(|_| ()).map_err(|e| e.to_string())))));
+                        break 'sessions;
+                    }
+                }
+                tokio::time::sleep(Duration::from_millis(50)).await; // let the client process the push
+            }
+            client.stop_session_pool_cleanup().await;
+            if hi == 0 {
+                rep.sample(case);
+            }
+        }
+        rep
+    });
+    for p in run::panic_log() {
+        if !run::is_harness_panic(&p) {
+            rep.violate("scheme_push", "client_level", "panic", p, json!({}));
+        }
+    }
+    run::case_end();
+    rep
 }
